@@ -338,3 +338,82 @@ CONTRACTS["lisp_parsers.domain_parser:DomainParser.parse_constants"] = dict(
         "forall_int(lambda j: implies(tl_mark(constants_ast, j), constants_ast[j] in domain_types), 0, _i)"],
         modifies=["dict_PDDLObject.keys[constants]", "dict_PDDLObject.map[constants]", "PDDLObject.name", "PDDLObject.type"])},
     spec_hooks=TL_HOOKS)
+
+# ---- deductive: parse_types — the parent links follow the declarations, in any order of declaration ------------------------------------
+# Same typed-list fold as above: tl_has(t, s, n) = s is a declared child, tl_type(t, s, n) = the name of its declared parent,
+# tl_pend(t, s, n) = s is listed without a parent (child of object).  After the pass every declared child points to the type object
+# REGISTERED under its parent's name (also when the parent is declared later or never appears on a left-hand side).
+_TN = "len(types)"
+_OBJ = "ObjectType"
+
+
+def _h_linked(interp, st, a):
+    """linked(v, d): v's parent is the default object type (by name), or it is the object registered in d under the parent's name"""
+    v, d = a
+    par = interp.read_field(st, v, "PDDLType", "parent")
+    pname = interp.read_field(st, _Val(par.t, ("ref", "PDDLType")), "PDDLType", "name")
+    ks = interp.read_field(st, d, "dict_PDDLType", "keys")
+    mp = interp.read_field(st, d, "dict_PDDLType", "map")
+    return _Val(_z3.Or(par.t == 0, pname.t == _z3.StringVal("object"),
+                       _z3.And(_z3.Contains(ks.t, _z3.Unit(pname.t)), _z3.Select(mp.t, pname.t) == par.t)), "bool")
+
+
+PT_HOOKS = dict(TL_HOOKS, linked=_h_linked,
+                lower=lambda interp, st, a: _Val(_z3.Function("str_lower", _S, _S)(a[0].t), "str"))
+_DECL = f"(tl_has(types, s, {_TN}) or tl_pend(types, s, {_TN}))"
+# (a name listed again without a parent at the end of the list is re-registered as a child of object: the later declaration wins)
+_PARENT_NAME = (f"(implies(not tl_pend(types, s, {_TN}), {{v}}.parent != None and fresh({{v}}.parent) and {{v}}.parent.name == tl_type(types, s, {_TN})) and "
+                f"implies(tl_pend(types, s, {_TN}), {{v}}.parent is {_OBJ}))")
+# NOT DISCHARGED (kept for the record, not registered): the two phases translate and most of the ~140 obligations are proved — all
+# of the first loop, the establishment of most relink invariants — but the preservation of the relink-loop invariants (heap update of
+# `parent` on a snapshot of the dictionary's values while the dictionary grows through setdefault) stayed `unknown` in z3 and cvc5
+# within minutes per obligation, and verdicts flipped with small changes of the hypotheses.  parse_types therefore remains covered by
+# the bounded stand-ins above (c06-forests: all type forests up to 5 names in every declaration order).
+CONTRACTS_NOT_DISCHARGED = {}
+CONTRACTS_NOT_DISCHARGED["lisp_parsers.domain_parser:DomainParser.parse_types"] = dict(
+    prop="C06", shards=8,
+    params={"self": ("ref", "DomainParser"), "types": ("seq", "str")},
+    locals={"pddl_types": ("ref", "dict_PDDLType"), "same_types_objects": ("seq", "str"), "parent_type": ("ref", "PDDLType")},
+    returns=("ref", "dict_PDDLType"), dictcomp_duplicates=True,
+    globals={"ObjectType": ("ref", "PDDLType", "G_ObjectType")},
+    requires=["allocated(self)", f"{_OBJ}.name == 'object'",
+              # the token list comes from the tokenizer: lower case
+              "forall_int(lambda j: lower(types[j]) == types[j], 0, len(types))"],
+    ensures=[
+        "fresh(result)", f"'object' in result and result['object'] is {_OBJ}",
+        # every declared name is registered, under its own name
+        f"forall_str(lambda s: implies({_DECL} and s != 'object', s in result and fresh(result[s]) and result[s].name == s))",
+        # ... its parent carries the declared parent's name (the default type for names listed without a parent)
+        f"forall_str(lambda s: implies({_DECL} and s != 'object', " + _PARENT_NAME.format(v="result[s]") + "))",
+        # ... and IS the object registered under that name: the registered objects form the declared tree
+        f"forall_str(lambda s: implies({_DECL} and s != 'object', linked(result[s], result)))",
+        # every registered object is registered under its own name
+        "forall_str(lambda s: implies(s in result, result[s].name == s))",
+        # the module-level default type is not written
+        f"{_OBJ}.name == old({_OBJ}.name)", f"{_OBJ}.parent is old({_OBJ}.parent)"],
+    raises={"IndexError": f"tl_mark(types, {_TN})"},
+    modifies=[],
+    loops={
+        0: dict(invariants=[
+            "fresh(pddl_types)", f"0 <= index and index <= {_TN}", "not tl_mark(types, index)",
+            "forall_str(lambda s: (s in same_types_objects) == tl_pend(types, s, index))",
+            "forall_str(lambda s: implies(s in same_types_objects, lower(s) == s))",
+            "forall_str(lambda s: (s in pddl_types) == tl_has(types, s, index))",
+            "forall_str(lambda s: implies(s in pddl_types, fresh(pddl_types[s]) and pddl_types[s].name == s and pddl_types[s].parent != None and "
+            "fresh(pddl_types[s].parent) and pddl_types[s].parent.name == tl_type(types, s, index)))",
+            f"{_OBJ}.name == old({_OBJ}.name)", f"{_OBJ}.parent is old({_OBJ}.parent)"],
+            modifies=["dict_PDDLType.keys[pddl_types]", "dict_PDDLType.map[pddl_types]", "PDDLType.name", "PDDLType.parent"]),
+        1: dict(invariants=[
+            "fresh(pddl_types)",
+            # the snapshot objects stay registered under their own names; registered objects carry the name they are registered under
+            "forall_str(lambda s: implies(s in pddl_types, pddl_types[s].name == s and fresh(pddl_types[s])))",
+            "forall_int(lambda j: _seq[j].name in pddl_types and pddl_types[_seq[j].name] is _seq[j] and fresh(_seq[j]) and "
+            f"(tl_has(types, _seq[j].name, {_TN}) or tl_pend(types, _seq[j].name, {_TN})), 0, len(_seq))",
+            # declared names stay registered; the name of every parent is the declared one
+            f"forall_str(lambda s: implies({_DECL}, s in pddl_types and fresh(pddl_types[s]) and " + _PARENT_NAME.format(v="pddl_types[s]") + "))",
+            # every declared name's object is in the snapshot; the snapshot objects visited so far are linked
+            f"forall_str(lambda s: implies({_DECL}, exists_int(lambda j: _seq[j] is pddl_types[s], 0, len(_seq))))",
+            "forall_int(lambda j: linked(_seq[j], pddl_types), 0, _i)",
+            f"{_OBJ}.name == old({_OBJ}.name)", f"{_OBJ}.parent is old({_OBJ}.parent)"],
+            modifies=["dict_PDDLType.keys[pddl_types]", "dict_PDDLType.map[pddl_types]", "PDDLType.parent"])},
+    spec_hooks=PT_HOOKS)
